@@ -435,8 +435,47 @@ func (m *Module) apDepth(v ssa.Value, d int) AP {
 		if w, ok := m.pureWrapper(f); ok && len(x.Call.Args) >= 1 {
 			return m.apDepth(x.Call.Args[0], d+1).wrap(w)
 		}
+		// a trivial accessor of this repository: one straight-line block returning a path below its only parameter
+		if path, ok := m.pathGetter(f); ok && len(x.Call.Args) == 1 {
+			a := m.apDepth(x.Call.Args[0], d+1)
+			for _, st := range path {
+				a = a.extend(st)
+			}
+			return a
+		}
 	}
 	return AP{Root: v}
+}
+
+// pathGetter: f(recv) is a single block that returns recv.a.b.c (loads and field selections only).
+func (m *Module) pathGetter(f *ssa.Function) ([]string, bool) {
+	if f == nil || len(f.Blocks) != 1 || len(f.Params) != 1 || f.Signature.Results().Len() != 1 || f.Pkg == nil || !strings.HasPrefix(f.Pkg.Pkg.Path(), modPath) {
+		return nil, false
+	}
+	if m.pathGet == nil {
+		m.pathGet = map[*ssa.Function][]string{}
+	}
+	if p, ok := m.pathGet[f]; ok {
+		return p, p != nil
+	}
+	m.pathGet[f] = nil
+	for _, in := range f.Blocks[0].Instrs {
+		switch in.(type) {
+		case *ssa.FieldAddr, *ssa.Field, *ssa.UnOp, *ssa.Return, *ssa.DebugRef:
+		default:
+			return nil, false
+		}
+	}
+	ret, ok := f.Blocks[0].Instrs[len(f.Blocks[0].Instrs)-1].(*ssa.Return)
+	if !ok {
+		return nil, false
+	}
+	a := m.apDepth(ret.Results[0], 0)
+	if a.Root != ssa.Value(f.Params[0]) || len(a.Path) == 0 || len(a.Wrap) > 0 {
+		return nil, false
+	}
+	m.pathGet[f] = a.Path
+	return a.Path, true
 }
 
 // ---------------------------------------------------------------- conditions and guards
